@@ -9,6 +9,7 @@ import (
 	"encoding/json"
 	"time"
 
+	"github.com/veesix-networks/osvbng/pkg/auth"
 	"github.com/veesix-networks/osvbng/pkg/models"
 	"github.com/veesix-networks/osvbng/pkg/opdb"
 	"github.com/veesix-networks/osvbng/pkg/southbound"
@@ -235,6 +236,33 @@ func (c *Component) pruneOrphanedAcctEntries(now time.Time) int {
 		delete(c.acctCache, id)
 		pruned++
 		c.deleteAcctCheckpoint(id)
+		// The session did not come back: close its accounting at the
+		// backend. Without a Stop the server keeps the session open for
+		// ever, and a later Start for the same Acct-Session-Id (a restore
+		// that arrives after the deadline re-announces the session) would
+		// be a second Start inside the same bracket. The final counters
+		// are the last values the server may have seen.
+		s.mu.Lock()
+		rxBytes, txBytes, rxPackets, txPackets := s.reportFloor()
+		s.mu.Unlock()
+		go c.authProvider.StopAccounting(c.Ctx, &auth.Session{
+			SessionID:         id,
+			AcctSessionID:     s.acctSessionID,
+			Username:          s.username,
+			MAC:               s.mac,
+			AccessType:        string(s.accessType),
+			AccessInterface:   s.accessInterface,
+			SVLAN:             s.svlan,
+			CVLAN:             s.cvlan,
+			AccessIfIndex:     s.accessIfIndex,
+			SubscriberIfIndex: s.swIfIndex,
+			RxBytes:           rxBytes,
+			TxBytes:           txBytes,
+			RxPackets:         rxPackets,
+			TxPackets:         txPackets,
+			SessionDuration:   uint32(now.Sub(s.authDate).Seconds()),
+			Attributes:        s.attributes,
+		})
 		c.logger.Info("Pruned orphaned acct cache entry",
 			"session_id", id,
 			"username", s.username,
